@@ -33,10 +33,16 @@ ap.add_argument("--configs", default="avx2,purego")
 ap.add_argument("--variants", default="")
 ap.add_argument("--tier", default="quick")
 ap.add_argument("--jobs", type=int, default=0)
+ap.add_argument("--asm", action="store_true", help="mutate the amd64 assembly files (.s) instead of the Go files: immediates +-1, displacements +8, "
+                "flipped jump conditions, deleted instructions; every dispatch configuration of the asm variant is run")
 a = ap.parse_args()
 prop = a.prop.upper()
 props = {json.loads(l)["id"]: json.loads(l) for l in open(os.path.join(ROOT, "properties.jsonl"))}
-files = [f for f in (a.files.split(",") if a.files else props[prop]["anchors"]["files"]) if f.endswith(".go") and not f.endswith("_test.go")]
+allf = a.files.split(",") if a.files else props[prop]["anchors"]["files"]
+if a.asm:
+    files = [f for f in allf if f.endswith("amd64.s")]
+else:
+    files = [f for f in allf if f.endswith(".go") and not f.endswith("_test.go")]
 files = [f for f in files if os.path.exists(os.path.join("/repo", f))]
 GOMUT = os.path.join(ROOT, "bin", "gomut")
 if not os.path.exists(GOMUT):
@@ -60,8 +66,59 @@ def constraint(path):
     return ""
 
 
+JFLIP = {"JE": "JNE", "JNE": "JE", "JEQ": "JNE", "JZ": "JNZ", "JNZ": "JZ", "JB": "JBE", "JBE": "JB", "JA": "JAE", "JAE": "JA", "JL": "JLE", "JLE": "JL",
+         "JG": "JGE", "JGE": "JG", "JCC": "JCS", "JCS": "JCC", "JLT": "JLE", "JGT": "JGE", "JHI": "JHS", "JLS": "JLO", "JC": "JNC", "JNC": "JC"}
+
+
+def asm_sites(path):
+    """text-level mutation sites of a Go assembly file: (line number, kind, original line, replacement line)"""
+    out = []
+    lines = open(path, errors="replace").read().split("\n")
+    fn = ""
+    for ln, line in enumerate(lines):
+        code = line.split("//")[0]
+        m = re.match(r"\s*TEXT\s+([^\s,(]+)", code)
+        if m:
+            fn = m.group(1)
+            continue
+        m = re.match(r"#define\s+(\w+)", code)
+        if m:
+            fn = "macro " + m.group(1)
+        st = code.strip().rstrip("\\").strip().rstrip(";")
+        if not st or st.startswith(("#", "DATA", "GLOBL", "TEXT")) or st.endswith(":"):
+            continue
+        op = st.split()[0]
+        if not re.match(r"^[A-Z][A-Z0-9]+$", op):
+            continue
+        cand = []
+        if op in JFLIP:
+            cand.append(("jflip", re.sub(r"\b%s\b" % op, JFLIP[op], line, 1)))
+        else:
+            for m in re.finditer(r"\$(0x[0-9a-fA-F]+|\d+)\b", code):
+                v = int(m.group(1), 0)
+                for d, k in ((1, "imm+1"), (-1, "imm-1")):
+                    if v + d >= 0:
+                        cand.append((k, line[:m.start()] + "$" + str(v + d) + line[m.end():]))
+            for m in re.finditer(r"(?<![\w$.])(-?\d+)\((?!SB|FP|PC)", code):
+                cand.append(("disp+8", line[:m.start()] + str(int(m.group(1)) + 8) + line[m.end(1):]))
+                cand.append(("disp+16", line[:m.start()] + str(int(m.group(1)) + 16) + line[m.end(1):]))
+            if op not in ("RET", "JMP", "CALL", "VZEROUPPER", "PUSHQ", "POPQ", "NOP") and not op.startswith("J"):
+                cont = "; \\" if code.rstrip().endswith("\\") else ""
+                cand.append(("delinsn", re.match(r"\s*", line).group(0) + "NOP" + cont))
+        for k, rep in cand:
+            out.append(dict(line=ln + 1, kind=k, func=fn, orig=line.strip()[:120], repl=rep.strip()[:140], newline=rep))
+    for i, s_ in enumerate(out):
+        s_["id"] = i
+    return out
+
+
 sites = []
 for f in files:
+    if f.endswith(".s"):
+        for s in asm_sites(os.path.join("/repo", f)):
+            s["file"] = f
+            sites.append(s)
+        continue
     rc, out = sh("%s -list %s" % (GOMUT, os.path.join("/repo", f)))
     for line in out.splitlines():
         try:
@@ -92,7 +149,7 @@ for s in sites:
         break
 outdir = os.path.join(ROOT, "run", "mutsweep")
 os.makedirs(outdir, exist_ok=True)
-outpath = os.path.join(outdir, prop + ".jsonl")
+outpath = os.path.join(outdir, prop + ("-asm" if a.asm else "") + ".jsonl")
 done = set()
 if os.path.exists(outpath):
     for line in open(outpath):
@@ -137,20 +194,28 @@ def worker(k):
             t0 = time.time()
             f = s["file"]
             sh("git checkout -q -- . && git clean -fdq", cwd=wt)
-            rc, mutated = sh("%s -apply %d %s" % (GOMUT, s["id"], os.path.join("/repo", f)))
+            if f.endswith(".s"):
+                ls_ = open(os.path.join("/repo", f), errors="replace").read().split("\n")
+                ls_[s["line"] - 1] = s["newline"]
+                rc, mutated = 0, "\n".join(ls_)
+            else:
+                rc, mutated = sh("%s -apply %d %s" % (GOMUT, s["id"], os.path.join("/repo", f)))
             res = dict(s, prop=prop)
+            res.pop("newline", None)
             if rc != 0:
                 continue
             open(os.path.join(wt, f), "w").write(mutated)
             cons = constraint(os.path.join(wt, f))
             pure_only = bool(re.search(r"(^|[^!\w])purego", cons)) and "!purego" not in cons
-            asm_only = "!purego" in cons
+            asm_only = "!purego" in cons or f.endswith(".s")
             variants = a.variants
             if not variants:
                 if prop == "C20":
                     variants = "race-purego" if pure_only else ("race" if asm_only else "race,race-purego")
                 else:
                     variants = "purego" if pure_only else ("asm" if asm_only else "asm,purego")
+            if not a.variants and re.search(r"(^|[^!\w])plugin", cons):
+                variants = "plugin"
             pkgdir = os.path.dirname(f)
             benv = dict(ENV)
             if pure_only:
@@ -159,7 +224,7 @@ def worker(k):
             if rc != 0:
                 res["result"] = "nocompile"
             else:
-                e2 = dict(os.environ, VERIF_REPO=wt, VERIF_ONLY_VARIANTS=variants, VERIF_ONLY_CONFIGS=a.configs, VERIF_JOBS=str(njobs), VERIF_JOB_WALL="600")
+                e2 = dict(os.environ, VERIF_REPO=wt, VERIF_ONLY_VARIANTS=variants, VERIF_ONLY_CONFIGS=("" if a.asm and a.configs == "avx2,purego" else a.configs), VERIF_JOBS=str(njobs), VERIF_JOB_WALL="600")
                 rc, out = sh("./check %s %s" % (prop, a.tier), cwd=ROOT, env=e2, timeout=3000)
                 lines = out.splitlines()
                 idx = [i for i, l in enumerate(lines) if l.startswith("VIOLATION")]
